@@ -223,6 +223,14 @@ pub fn watch_sub(n: u64) {
     SLOT_START[i].store(now_ms(), Ordering::Relaxed);
 }
 
+/// Restart the timer of the current case (called before each subject call of a long case).
+pub fn watch_touch() {
+    let i = MY_SLOT.with(|s| *s.borrow());
+    if SLOT_START[i].load(Ordering::Relaxed) != 0 {
+        SLOT_START[i].store(now_ms(), Ordering::Relaxed);
+    }
+}
+
 pub fn watch_idle() {
     let i = MY_SLOT.with(|s| *s.borrow());
     SLOT_START[i].store(0, Ordering::Relaxed);
@@ -242,6 +250,11 @@ pub fn start_watchdog(limit: Duration) {
                     let desc = SLOT_DESC[i].lock().unwrap().clone().unwrap_or(Value::Null);
                     let sub = SLOT_SUB[i].load(Ordering::Relaxed);
                     let ctx = ctx();
+                    if ctx.part.is_some() {
+                        // worker process: the coordinator attributes the hang to the announced case
+                        println!("WORKER-HANG {sub}");
+                        std::process::exit(3);
+                    }
                     let v = Violation {
                         sig: json!({"kind": "hang"}),
                         detail: format!("a subject call did not return within {} s", limit.as_secs()),
